@@ -25,7 +25,7 @@ CHECKS = {
         engine='explorer',
         technique='explicit-state BFS of BufferedReader operation histories vs reference slice model',
         design_ref='DESIGN.md §7 C20',
-        text='Every sequence of read/peek/seek/tell/readall operations up to depth 4 (quick) / 6 (thorough) is '
+        text='Every sequence of read/peek/seek/tell/readall operations up to depth 4 (quick) / 8 (thorough) is '
              'applied to the real BufferedReader for every small geometry (file length 0-9, offset, explicit or '
              'unknown size, buffer sizes 1-5 and 16, cache limits 2-3, data= constructor), states de-duplicated on '
              'exactly the fields the class reads, each step compared with a reference slice model. Exhaustive '
